@@ -88,6 +88,8 @@ func (c *config) tag(layer string) string {
 type failure struct {
 	Sig    string `json:"signature"`
 	Coarse string `json:"symptom_class,omitempty"` // wrong-answer | panic | error
+	// Raw is the signature the failure has when it does not qualify for a family.
+	Raw string `json:"unclassified_signature,omitempty"`
 	What   string `json:"what"`
 	Step   int    `json:"step"`
 	Got    string `json:"got,omitempty"`
@@ -238,11 +240,67 @@ func sizeFit(c *config, universe [][]byte, maxValue int) {
 	case "fit-values-only":
 		c.CapNodes, c.CapValues = 0, 4*maxLeaf
 	}
-	if c.CapNodes != 0 && c.CapNodes < ws {
-		c.CapClass = "tiny"
-	} else if c.CapClass == "tiny" {
-		c.CapClass = "fit"
+	c.CapClass = classOf(c.CapSet, c.CapNodes, c.CapValues, ws, c.Capacity)
+}
+
+// classOf is the single rule that maps a configured capacity Capacity(N, V) to its class
+// (ws = 2D+4 is the working set of one operation in nodes):
+//
+//	not configured        default
+//	N == 0 && V == 0      unlimited
+//	0 < N < ws            tiny   (candidate for the family cache-below-working-set)
+//	otherwise, V > 0      fit / fit2 / fitv: finite value capacity, so clean leaves get evicted
+//	                      (candidate for the family value-cache-eviction)
+//	otherwise (V == 0)    fitn
+func classOf(set bool, n, v, ws uint64, name string) string {
+	switch {
+	case !set:
+		return "default"
+	case n == 0 && v == 0:
+		return "unlimited"
+	case n > 0 && n < ws:
+		return "tiny"
+	case v > 0 && n == 0:
+		return "fitv"
+	case v > 0 && name == "fit2":
+		return "fit2"
+	case v > 0:
+		return "fit"
 	}
+	return "fitn"
+}
+
+// familyOf returns the known-finding family a failure under this capacity class is a candidate
+// for. Membership additionally requires that the same history passes with Capacity(0,0), see
+// confirmFamily.
+func familyOf(class string) string {
+	switch class {
+	case "tiny":
+		return "c03/cache-below-working-set/"
+	case "fit", "fit2", "fitv":
+		return "c03/value-cache-eviction/"
+	}
+	return ""
+}
+
+// confirmFamily decides membership in a known-finding family. f.Sig is a family signature only
+// as a candidate (by the capacity class); it is kept iff the very same history PASSES when it is
+// replayed once with Capacity(0,0) (no eviction at all), i.e. the failure is caused by eviction.
+// Otherwise the failure gets its ordinary signature, so a defect that also breaks trees with
+// unlimited caches can never hide in a family.
+func confirmFamily(cfg *config, ops []op, f *failure) string {
+	fam := familyOf(cfg.CapClass)
+	if fam == "" || !strings.HasPrefix(f.Sig, fam) {
+		return f.Sig
+	}
+	u := *cfg
+	u.Capacity, u.CapClass, u.CapSet, u.CapNodes, u.CapValues = "unlimited", "unlimited", true, 0, 0
+	run.Count("family_candidates_replayed_with_unlimited_cache", 1)
+	if g := execute(&u, ops, nil); g != nil {
+		run.Count("family_candidates_failing_with_unlimited_cache_too", 1)
+		return f.Raw
+	}
+	return f.Sig
 }
 
 func mk(kind string, k, v, k2 []byte, n int) op {
@@ -434,23 +492,18 @@ func execute(cfg *config, ops []op, st *stats) (f *failure) {
 		version = cfg.StartVer
 		first   = true
 	)
-	family := ""
-	switch cfg.CapClass {
-	case "tiny":
-		family = "c03/cache-below-working-set/"
-	case "fit", "fit2", "fitv":
-		family = "c03/value-cache-eviction/"
-	}
+	family := familyOf(cfg.CapClass)
 	mkfail := func(symptom, what, got, want string) *failure {
 		coarse := "wrong-answer"
 		if strings.HasPrefix(symptom, "error-") {
 			coarse = "error"
 		}
-		sig := "c03/" + symptom + "/" + cfg.tag(curKind)
+		raw := "c03/" + symptom + "/" + cfg.tag(curKind)
+		sig := raw
 		if family != "" {
 			sig = family + coarse
 		}
-		return &failure{Sig: sig, Coarse: coarse, What: fmt.Sprintf("step %d (%s on %s, depth %d): %s", step, curOp, curKind, len(layers)-1, what), Step: step, Got: got, Want: want}
+		return &failure{Sig: sig, Raw: raw, Coarse: coarse, What: fmt.Sprintf("step %d (%s on %s, depth %d): %s", step, curOp, curKind, len(layers)-1, what), Step: step, Got: got, Want: want}
 	}
 	failErr := func(err error) *failure {
 		if family == "" && cfg.Backend == lab.BackendNop && errors.Is(err, dbApi.ErrNodeNotFound) {
@@ -462,11 +515,12 @@ func execute(cfg *config, ops []op, st *stats) (f *failure) {
 	}
 	defer func() {
 		if p := recover(); p != nil {
-			sig := "panic/" + curOp + "/" + cfg.tag(curKind)
+			raw := "panic/" + curOp + "/" + cfg.tag(curKind)
+			sig := raw
 			if family != "" {
 				sig = family + "panic"
 			}
-			f = &failure{Sig: sig, Coarse: "panic", What: fmt.Sprintf("panic at step %d (%s on %s): %v", step, curOp, curKind, p), Step: step, Detail: fmt.Sprintf("%v\n%s", p, debug.Stack())}
+			f = &failure{Sig: sig, Raw: raw, Coarse: "panic", What: fmt.Sprintf("panic at step %d (%s on %s): %v", step, curOp, curKind, p), Step: step, Detail: fmt.Sprintf("%v\n%s", p, debug.Stack())}
 		}
 		if cdb != nil && st != nil {
 			st.refetch += cdb.Refetch.Load()
@@ -849,9 +903,9 @@ func runCase(i int) {
 	// survives in the minimal history the failure is filed under its own family.
 	underflowCandidate := cfg.CapClass == "default" && cfg.Backend != lab.BackendNop &&
 		strings.HasPrefix(classifyLostNode(ops[:f.Step+1]), "after-overwrite")
-	doShrink := enterReport(f.Sig, underflowCandidate)
-	defer leaveReport(f.Sig, doShrink)
-	sig := f.Sig
+	sig := confirmFamily(&cfg, ops, f)
+	doShrink := enterReport(sig, underflowCandidate)
+	defer leaveReport(sig, doShrink)
 	if doShrink {
 		w.Minimal = shrink(ops, func(h []op) bool {
 			g := execute(&cfg, h, nil)
@@ -923,11 +977,17 @@ func runCanaries() {
 	}
 	canaries := []canary{
 		{"tiny-cache-wrong-answer",
-			config{Backend: lab.BackendBadger, Capacity: "n2v16", CapClass: "tiny", CapSet: true, CapNodes: 2, CapValues: 16, Mechanism: "raw", StartVer: 1000},
+			config{Backend: lab.BackendBadger, Capacity: "custom", CapSet: true, CapNodes: 2, CapValues: 16, Mechanism: "raw", StartVer: 1000},
 			[]op{
 				mk(opInsert, h("7f21"), h("807f80"), nil, 0), mk(opInsert, h("62"), h("7f62"), nil, 0),
 				mk(opInsert, h("01ff7f7f"), h("627f"), nil, 0), mk(opInsert, h("8062"), h("62"), nil, 0),
 				mk(opCommit, nil, nil, nil, 0), mk(opInsert, h("6100"), h("7f"), nil, 0), mk(opFullIter, h("8062"), nil, nil, 0),
+			}},
+		{"value-cache-wrong-answer",
+			config{Backend: lab.BackendBadger, Capacity: "custom", CapSet: true, CapNodes: 0, CapValues: 150, NoWriteLog: true, Mechanism: "raw", StartVer: 0, Finalize: true},
+			[]op{
+				mk(opInsert, h("61"), h("ff6180"), nil, 0), mk(opInsert, h("62"), h("01"), nil, 0), mk(opCommit, nil, nil, nil, 0),
+				mk(opInsert, h("627f7f"), h("7f01"), nil, 0), mk(opFullIter, h("617f806201ff"), nil, nil, 0),
 			}},
 	}
 	for ci := range canaries {
@@ -950,7 +1010,7 @@ func runCanaries() {
 			run.Count("canary_cases_passed", 1)
 			continue
 		}
-		run.Violation(f.Sig, "canary "+c.name+": "+f.What+fmt.Sprintf(" got=%s want=%s", f.Got, f.Want),
+		run.Violation(confirmFamily(&c.cfg, c.ops, f), "canary "+c.name+": "+f.What+fmt.Sprintf(" got=%s want=%s", f.Got, f.Want),
 			witness{Seed: run.Seed, Case: -1 - ci, Config: c.cfg, Ops: c.ops, Step: f.Step, Failure: f, Minimal: c.ops, MinimalFailure: f})
 	}
 }
